@@ -77,6 +77,8 @@ def materialise(case):
         rec["letters"] = {"phred_quality": [rng.randint(0, 60) for _ in range(n)]}
         if rng.random() < 0.4:
             rec["letters"]["trace"] = ["t%d" % j for j in range(n)]
+        if rng.random() < 0.3:
+            rec["letters"]["secondary_structure"] = gen.rand_dna(rng, n, ".()<>")
     prior = [rng.randint(-2 * n, 2 * n) for _ in range(rng.randint(0, 3))]
     return {"kind": "gen", "rec": rec, "runs": [{"prior": prior, "k": rng.randint(-2 * n, 2 * n)}]}
 
